@@ -32,7 +32,7 @@ def cbc_shim(mod):
         mod.GLPK_CMD = lambda *a, **k: pulp.PULP_CBC_CMD(msg=False, timeLimit=20)
 
 
-def problem(inst, dep, graph, hints_on):
+def problem(inst, dep, graph, hints_on, explicit_zero=False):
     dcop, doms = build_dcop(inst)
     gm = importlib.import_module("pydcop.computations_graph." + graph)
     cg = gm.build_computation_graph(dcop)
@@ -41,7 +41,8 @@ def problem(inst, dep, graph, hints_on):
     agents = []
     for i, a in enumerate(names):
         routes = {names[j]: dep["route"][i][j] for j in range(len(names)) if j != i}
-        hosting = {comps[c]: dep["hosting"][i][c % len(dep["hosting"][i])] for c in range(len(comps)) if dep["hosting"][i][c % len(dep["hosting"][i])]}
+        hosting = {comps[c]: dep["hosting"][i][c % len(dep["hosting"][i])] for c in range(len(comps))
+                   if dep["hosting"][i][c % len(dep["hosting"][i])] or (explicit_zero and (i + c) % 3 == 0)}
         # the default hosting cost is 0 (the library's default) for half of the deployments
         agents.append(AgentDef(a, capacity=dep["cap"][i], default_route=1, routes=routes, default_hosting_cost=0 if dep["k"] == 1 else 4, hosting_costs=hosting))
     algo = load_algorithm_module(ALGO_FOR[graph])
